@@ -81,9 +81,17 @@ Proof. exact par1_repair_ok_all_recorded_strong. Qed.
 Print Assumptions C04_success_means_restored.
 
 (* THE ROUND TRIP, for every input set Create accepts (files beside the index, names that are UTF-8 of
-   scalar values, no stale volume files at the probed paths beyond the ones written):
+   scalar values):
    Create, then Verify - with and without the full parity check - succeeds, counts every file and every
-   (loadable: at most 99) volume usable and none unusable, and the parity check says ok *)
+   (loadable: at most 99) volume usable and none unusable, and the parity check says ok.
+   ARBITRARY STALE OR FOREIGN FILES may lie at the volume paths beyond the volumes written (.pNN, nv < NN): garbage,
+   or a volume of ANOTHER set (it parses, but carries another set hash than the one of the input files, or another
+   number) - they are unusable, not fatal (after the loader fix).  What the premise still excludes there is a
+   directory (a read error that is not "does not exist") and a volume of THIS set under its own number (e.g. left
+   by an earlier Create of the same files with more volumes: it is a genuine volume and is counted) - both
+   inhabited: Par1RoundTrip.par1_directory_at_volume_path_refuted, par1_stale_same_set_volume_loaded.
+   That no input is the index or a volume written is no longer a premise: Create returns an error then
+   (C02_par1_create_ok_inputs_not_outputs). *)
 Theorem C04_create_then_verify_clean : forall md5, (forall x, length (md5 x) = 16%nat) ->
   forall parPath files nvol fs st' all,
   par1_create md5 parPath files nvol (io_init fs []) = (Ok tt, st') ->
@@ -91,9 +99,15 @@ Theorem C04_create_then_verify_clean : forall md5, (forall x, length (md5 x) = 1
   Forall (fun f => input_name_ok (base f)) files ->
   Forall (fun f => join2 (dir parPath) (base f) = f) files ->
   (forall f d, In f files -> fs_lookup fs f = Some d -> N.of_nat (length d) < 2^64) ->
-  Forall (fun f => f <> parPath /\ forall k, (1 <= k <= nv)%nat -> f <> volume_path parPath (N.of_nat k)) files ->
   (forall k, (nv < k <= Nat.min (256 - length files) 99)%nat ->
-     fs_lookup fs (volume_path parPath (N.of_nat k)) = None /\ is_dir fs (volume_path parPath (N.of_nat k)) = false) ->
+     is_dir fs (volume_path parPath (N.of_nat k)) = false /\
+     forall b, fs_lookup fs (volume_path parPath (N.of_nat k)) = Some b ->
+       match read_volume md5 b with
+       | Ok v => v_sethash_stored v <> md5 (flat_map (fun f => match fs_lookup fs f with Some d => md5 d | None => [] end) files)
+                 \/ v_number v <> N.of_nat k
+       | Err _ => True
+       | Panic _ => False
+       end) ->
   exists c st2, par1_verify md5 parPath all (io_init (io_fs st') []) = (Ok (c, all), st2) /\
     fc_unusable c = 0%nat /\ fc_punusable c = 0%nat /\ fc_usable c = length files /\ fc_pusable c = Nat.min nv 99.
 Proof. exact par1_create_then_verify_clean. Qed.
@@ -129,6 +143,75 @@ Theorem C04_unparsable_volume_step : forall md5 ix sethash i n' size acc st b st
   load_vols md5 ix sethash i (S n') size acc st = load_vols md5 ix sethash (S i) n' size (acc ++ [None]) st1.
 Proof. exact load_vols_unparsable_is_unusable. Qed.
 Print Assumptions C04_unparsable_volume_step.
+
+(* A STALE OR FOREIGN PARITY VOLUME IS UNUSABLE, NOT FATAL: a file at a volume path that PARSES as a PAR 1.0 volume but
+   belongs to another set - it carries another set hash than the index (a volume left by an earlier Create, a volume of a
+   foreign set) or a volume number that is not the one of its file name - is treated exactly like a missing one: one
+   step of the loader; the whole loaded state; what Verify returns; what Repair returns and lists *)
+Theorem C04_foreign_volume_step : forall md5 ix sethash i n' size acc st b st1 v,
+  io_read (volume_path ix (N.of_nat (S i))) st = (Ok b, st1) -> read_volume md5 b = Ok v ->
+  bytes_eqb (v_sethash_stored v) sethash = false \/ v_number v <> N.of_nat (S i) ->
+  load_vols md5 ix sethash i (S n') size acc st = load_vols md5 ix sethash (S i) n' size (acc ++ [None]) st1.
+Proof. exact load_vols_foreign_is_unusable. Qed.
+Print Assumptions C04_foreign_volume_step.
+
+Theorem C04_foreign_volume_ignored : forall md5 ix k fs fs' b vb,
+  (forall p, p <> volume_path ix k -> fs_lookup fs' p = fs_lookup fs p /\ is_dir fs' p = is_dir fs p) ->
+  fs_lookup fs (volume_path ix k) = None -> is_dir fs (volume_path ix k) = false ->
+  fs_lookup fs' (volume_path ix k) = Some b -> read_volume md5 b = Ok vb ->
+  (forall bi v, fs_lookup fs ix = Some bi -> read_volume md5 bi = Ok v -> v_sethash_stored vb <> v_sethash_stored v) ->
+  (forall bi v e, fs_lookup fs ix = Some bi -> read_volume md5 bi = Ok v -> In e (v_entries v) -> saved e = true ->
+     join2 (dir ix) (e_name e) <> volume_path ix k) ->
+  fst (p1_load md5 ix (io_init fs' [])) = fst (p1_load md5 ix (io_init fs [])).
+Proof. exact p1_load_ignores_foreign_volume. Qed.
+Print Assumptions C04_foreign_volume_ignored.
+
+Theorem C04_foreign_volume_ignored_verify : forall md5 ix k all fs fs' b vb,
+  (forall p, p <> volume_path ix k -> fs_lookup fs' p = fs_lookup fs p /\ is_dir fs' p = is_dir fs p) ->
+  fs_lookup fs (volume_path ix k) = None -> is_dir fs (volume_path ix k) = false ->
+  fs_lookup fs' (volume_path ix k) = Some b -> read_volume md5 b = Ok vb ->
+  (forall bi v, fs_lookup fs ix = Some bi -> read_volume md5 bi = Ok v -> v_sethash_stored vb <> v_sethash_stored v) ->
+  (forall bi v e, fs_lookup fs ix = Some bi -> read_volume md5 bi = Ok v -> In e (v_entries v) -> saved e = true ->
+     join2 (dir ix) (e_name e) <> volume_path ix k) ->
+  fst (par1_verify md5 ix all (io_init fs' [])) = fst (par1_verify md5 ix all (io_init fs [])).
+Proof. exact par1_verify_ignores_foreign_volume. Qed.
+Print Assumptions C04_foreign_volume_ignored_verify.
+
+Theorem C04_foreign_volume_ignored_repair : forall md5 ix k dbl fs fs' b vb,
+  (forall p, p <> volume_path ix k -> fs_lookup fs' p = fs_lookup fs p /\ is_dir fs' p = is_dir fs p) ->
+  fs_lookup fs (volume_path ix k) = None -> is_dir fs (volume_path ix k) = false ->
+  fs_lookup fs' (volume_path ix k) = Some b -> read_volume md5 b = Ok vb ->
+  (forall bi v, fs_lookup fs ix = Some bi -> read_volume md5 bi = Ok v -> v_sethash_stored vb <> v_sethash_stored v) ->
+  (forall bi v e, fs_lookup fs ix = Some bi -> read_volume md5 bi = Ok v -> In e (v_entries v) -> saved e = true ->
+     join2 (dir ix) (e_name e) <> volume_path ix k) ->
+  fst (par1_repair md5 ix dbl (io_init fs' [])) = fst (par1_repair md5 ix dbl (io_init fs [])).
+Proof. exact par1_repair_ignores_foreign_volume. Qed.
+Print Assumptions C04_foreign_volume_ignored_repair.
+
+(* ... and a volume whose number field is not the number of its file name *)
+Theorem C04_misnumbered_volume_ignored : forall md5 ix k fs fs' b vb,
+  (forall p, p <> volume_path ix k -> fs_lookup fs' p = fs_lookup fs p /\ is_dir fs' p = is_dir fs p) ->
+  fs_lookup fs (volume_path ix k) = None -> is_dir fs (volume_path ix k) = false ->
+  fs_lookup fs' (volume_path ix k) = Some b -> read_volume md5 b = Ok vb -> v_number vb <> k ->
+  (forall bi v e, fs_lookup fs ix = Some bi -> read_volume md5 bi = Ok v -> In e (v_entries v) -> saved e = true ->
+     join2 (dir ix) (e_name e) <> volume_path ix k) ->
+  fst (p1_load md5 ix (io_init fs' [])) = fst (p1_load md5 ix (io_init fs [])).
+Proof. exact p1_load_ignores_misnumbered_volume. Qed.
+Print Assumptions C04_misnumbered_volume_ignored.
+
+(* the scenario of the finding: Create with 3 volumes over one file, then - the file replaced - Create with 2 volumes
+   over two files: the stale a.p03 of the first set parses and carries the other set hash; Verify is clean *)
+Example C04_stale_volume_example :
+  let fs0 := ex_fs0 ++ [(volume_path ex_ix 3, ex_stale)] in
+  let fs' := io_fs (snd (par1_create toy_hash ex_ix ex_files 2%Z (io_init fs0 []))) in
+  (exists v, read_volume toy_hash ex_stale = Ok v /\ v_number v = 3 /\
+             bytes_eqb (v_sethash_stored v) (input_set_hash toy_hash fs0 ex_files) = false) /\
+  fst (par1_create toy_hash ex_ix ex_files 2%Z (io_init fs0 [])) = Ok tt /\
+  fs_lookup fs' (volume_path ex_ix 3) = Some ex_stale /\
+  fst (par1_verify toy_hash ex_ix true (io_init fs' [])) =
+    Ok ({| fc_usable := 2; fc_unusable := 0; fc_pusable := 2; fc_punusable := 0 |}, true).
+Proof. exact par1_stale_foreign_volume_ignored. Qed.
+Print Assumptions C04_stale_volume_example.
 
 Theorem C04_unparsable_volume_ignored : forall md5 ix k fs fs' b x,
   (forall p, p <> volume_path ix k -> fs_lookup fs' p = fs_lookup fs p /\ is_dir fs' p = is_dir fs p) ->
